@@ -654,6 +654,12 @@ fn spawn_async_ao_list_in_task'''),
         ('plain-operator-strips-tabs', 'brush-parser/src/parser/peg.rs', "                    remove_tabs: false,", "                    remove_tabs: true,"),
         ('backslash-in-the-delimiter-does-not-count-as-quoting', 'brush-parser/src/parser/peg.rs', [("specific_operator(\"<<\") here_tag:here_tag() doc:[_] closing_tag:here_tag() {\n                let requires_expansion = !here_tag.to_str().contains(['\\'', '\"', '\\\\']);", "specific_operator(\"<<\") here_tag:here_tag() doc:[_] closing_tag:here_tag() {\n                let requires_expansion = !here_tag.to_str().contains(['\\'', '\"', '\"']);")]),
     ],
+    'U66': [
+        ('failed-redirection-of-a-compound-command-ends-the-script', 'brush-core/src/interp.rs', "                        if let Err(e) =\n                            setup_redirect(&mut pipeline_context.shell, &mut params, redirect).await\n                        {\n                            writeln!(params.stderr(&pipeline_context.shell), \"error: {e}\")?;\n                            let mut result = ExecutionResult::general_error();\n                            if !params.suppress_errexit {\n                                pipeline_context.shell.apply_errexit_if_enabled(&mut result);\n                            }\n                            return Ok(result.into());\n                        }", "                        setup_redirect(&mut pipeline_context.shell, &mut params, redirect).await?;"),
+        ('failed-redirection-of-a-compound-command-ignored', 'brush-core/src/interp.rs', "                            if !params.suppress_errexit {\n                                pipeline_context.shell.apply_errexit_if_enabled(&mut result);\n                            }\n                            return Ok(result.into());", "                            if !params.suppress_errexit {\n                                pipeline_context.shell.apply_errexit_if_enabled(&mut result);\n                            }"),
+        ('failed-redirection-exits-under-errexit-even-when-exempt', 'brush-core/src/interp.rs', "                            if !params.suppress_errexit {\n                                pipeline_context.shell.apply_errexit_if_enabled(&mut result);\n                            }", "                            pipeline_context.shell.apply_errexit_if_enabled(&mut result);"),
+        ('failed-redirection-reported-as-success', 'brush-core/src/interp.rs', "                            let mut result = ExecutionResult::general_error();\n                            if !params.suppress_errexit {", "                            let mut result = ExecutionResult::success();\n                            if !params.suppress_errexit {"),
+    ],
     'U65': [
         ('missing-key-of-an-associative-array-tolerated', 'brush-core/src/expansion.rs', "                    Ok(Expansion::from(value.to_string()))\n                } else {\n                    self.undefined_expansion(parameter, allow_unset_vars)\n                }\n            }\n            brush_parser::word::Parameter::NamedWithAllIndices", "                    Ok(Expansion::from(value.to_string()))\n                } else {\n                    self.undefined_expansion(parameter, allow_unset_vars || is_set_assoc_array)\n                }\n            }\n            brush_parser::word::Parameter::NamedWithAllIndices"),
         ('unset-positional-parameter-always-tolerated', 'brush-core/src/expansion.rs', "                    Ok(Expansion::from(parameter.to_owned()))\n                } else {\n                    self.undefined_expansion(parameter, allow_unset_vars)", "                    Ok(Expansion::from(parameter.to_owned()))\n                } else {\n                    self.undefined_expansion(parameter, true)"),
